@@ -427,18 +427,27 @@ func ruleDequeResize(c *Ctx, r *R) {
 		}
 		direct := false
 		calls := false
-		instrs(fn, func(b *ssa.BasicBlock, i int, in ssa.Instruction) {
-			if st, ok := in.(*ssa.Store); ok {
+		for _, dd := range deepInstrs(fn, 2) { // (through a helper shared with the expansion step: d.ensureSpare(n, len(d.a)+n))
+			inResize := false
+			for _, site := range dd.calls {
+				if cal := staticCallee(&site.Call); cal != nil && fname(cal) == "resize" {
+					inResize = true
+				}
+			}
+			if inResize {
+				continue
+			}
+			if st, ok := dd.in.(*ssa.Store); ok {
 				if _, isAlloc := st.Addr.(*ssa.Alloc); !isAlloc {
 					direct = true
 				}
 			}
-			if call, ok := in.(*ssa.Call); ok {
+			if call, ok := dd.in.(*ssa.Call); ok {
 				if cal := staticCallee(&call.Call); cal != nil && fname(cal) == "resize" {
 					calls = true
 				}
 			}
-		})
+		}
 		r.ok(!direct && calls, "deque.Deque."+n+"|only-through-resize", fn.Pos(), n+" must not touch the contents except through resize")
 	}
 	rs := dq(c, "resize")
@@ -500,11 +509,66 @@ func ruleDequeResize(c *Ctx, r *R) {
 		}
 	})
 	okOrder := lenCall != nil && storeA != nil && lenCall.Block().Dominates(storeA.Block()) && (lenCall.Block() != storeA.Block() || idxIn(lenCall) < idxIn(storeA))
+	var oldLen ssa.Value
+	if lenCall != nil {
+		oldLen = lenCall.(*ssa.Call)
+	}
+	if lenCall == nil && storeA != nil {
+		// the old length is handed in by the callers, who have just computed it (resize(size, n) with size := d.Len() at every
+		// call site): read before the call, hence before d.a is replaced
+		for pi, p := range rs.Params {
+			if pi == 0 || !isIntType(p.Type()) {
+				continue
+			}
+			sites := callSitesOf(c, rs)
+			all := len(sites) > 0
+			for _, site := range sites {
+				if pi >= len(site.Call.Args) {
+					all = false
+					break
+				}
+				lc, ok := resolveVal(site.Call.Args[pi]).(*ssa.Call)
+				if !ok {
+					all = false
+					break
+				}
+				cal := staticCallee(&lc.Call)
+				if cal == nil || fname(cal) != "Len" || len(lc.Call.Args) != 1 || resolveVal(lc.Call.Args[0]) != resolveVal(site.Call.Args[0]) {
+					all = false
+					break
+				}
+				// nothing between that Len() and the call may touch the deque: no heap store (or call of a deque method that
+				// stores) on a path from the one to the other
+				if !(lc.Block() == site.Block() && idxIn(lc) < idxIn(site)) && !(lc.Block() != site.Block() && lc.Block().Dominates(site.Block())) {
+					all = false
+					break
+				}
+				instrs(site.Parent(), func(sb *ssa.BasicBlock, si int, sin ssa.Instruction) {
+					st, isSt := sin.(*ssa.Store)
+					if !isSt {
+						return
+					}
+					if _, local := st.Addr.(*ssa.Alloc); local {
+						return
+					}
+					afterLen := (sb == lc.Block() && si > idxIn(lc)) || (sb != lc.Block() && reaches(lc.Block(), sb))
+					beforeCall := (sb == site.Block() && si < idxIn(site)) || (sb != site.Block() && reaches(sb, site.Block()))
+					if afterLen && beforeCall {
+						all = false
+					}
+				})
+			}
+			if all {
+				oldLen = p
+				okOrder = true
+			}
+		}
+	}
 	r.ok(okOrder, "deque.Deque.resize|old-length-before-replace", rs.Pos(), "resize must read the old length before it replaces d.a (Len depends on len(d.a))")
-	okEnds := frontV != nil && isConstInt(frontV, 0) && backV != nil
+	okEnds := frontV != nil && isConstInt(frontV, 0) && backV != nil && oldLen != nil
 	if okEnds {
 		bin, ok := backV.(*ssa.BinOp)
-		okEnds = ok && bin.Op == token.SUB && bin.X == ssa.Value(lenCall.(*ssa.Call)) && isConstInt(bin.Y, 1)
+		okEnds = ok && bin.Op == token.SUB && bin.X == oldLen && isConstInt(bin.Y, 1)
 	}
 	r.ok(okEnds, "deque.Deque.resize|ends-reset", rs.Pos(), "after resize the contents start at 0: front = 0 and back = oldLen-1 (−1 encodes empty)")
 	// the segments copied: distinct sub-slices of the old buffer that reach a copy as its source (directly or as the result of a
@@ -738,16 +802,29 @@ func dequeExpandHost(c *Ctx, r *R, me *ssa.Function, key string) {
 	n := 0
 	good := true
 	why := ""
-	instrs(me, func(b *ssa.BasicBlock, i int, in ssa.Instruction) {
-		call, ok := in.(*ssa.Call)
-		if !ok {
-			return
+	// (the resize may sit in a helper the step shares with Grow: d.ensureSpare(1, max(minSize, len(d.a)*2)) - its parameters
+	// stand for what the expansion step passes)
+	var resizeSites []deepInstr
+	for _, dd := range deepInstrs(me, 2) {
+		if call, ok := dd.in.(*ssa.Call); ok {
+			if cal := staticCallee(&call.Call); cal != nil && fname(cal) == "resize" {
+				if len(dd.calls) > 0 {
+					if inner := staticCallee(&dd.calls[len(dd.calls)-1].Call); inner != nil && fname(inner) == "resize" {
+						continue // inside resize itself
+					}
+				}
+				resizeSites = append(resizeSites, dd)
+			}
 		}
-		if cal := staticCallee(&call.Call); cal == nil || fname(cal) != "resize" {
-			return
-		}
+	}
+	for _, dd := range resizeSites {
+		call := dd.in.(*ssa.Call)
 		n++
-		arg := call.Call.Args[1]
+		arg := call.Call.Args[len(call.Call.Args)-1]
+		if as := argsAs(&call.Call); len(as) >= 2 && as[1] != nil {
+			arg = as[1] // the new size, whatever else the helper is handed nowadays
+		}
+		arg = argOf(arg, dd.calls)
 		pos := false
 		if k, ok := arg.(*ssa.Const); ok && k.Value != nil && k.Int64() >= 1 {
 			pos = true
@@ -802,21 +879,29 @@ func dequeExpandHost(c *Ctx, r *R, me *ssa.Function, key string) {
 			good = false
 			why = "resize(" + path(arg) + ") may be resize(0): after Shrink(0) on a drained deque len(d.a) == 0 and the next push divides by zero / indexes an empty slice"
 		}
-	})
+	}
 	// the resize must be reachable for the empty buffer: guarded only by Len() == len(d.a) (no extra d.a == nil split that leaves len 0 ∧ non-nil uncovered)
 	cover := false
-	instrs(me, func(b *ssa.BasicBlock, i int, in ssa.Instruction) {
-		call, ok := in.(*ssa.Call)
-		if !ok {
-			return
-		}
-		if cal := staticCallee(&call.Call); cal == nil || fname(cal) != "resize" {
-			return
-		}
+	for _, dd := range resizeSites {
+		b := dd.in.Block()
 		gs := guardsOf(b)
+		for _, site := range dd.calls {
+			gs = append(gs, guardsOf(site.Block())...)
+		}
+		env := provEnv{chain: dd.calls}
 		if len(gs) == 1 {
+			if cf, ok := gs[0].asCmp(); ok && (cf.op == token.LSS || cf.op == token.LEQ) {
+				// spare := len(d.a) - Len(); if spare < 1: "fewer than one spare slot" is "full" (Len never exceeds len(d.a))
+				xs, ys := symOf(cf.x, env), symOf(cf.y, env)
+				isLenCall := func(e *sx) bool { return e != nil && (e.inl == "Len" || (e.op == "call" && e.s == "Len")) }
+				isBufLen := func(e *sx) bool { return e != nil && e.op == "len" && e.args[0].fieldSuffix("a") }
+				if xs != nil && ys != nil && xs.op == "-" && len(xs.args) == 2 && isBufLen(xs.args[0]) && isLenCall(xs.args[1]) &&
+					((cf.op == token.LSS && ys.isConst(1)) || (cf.op == token.LEQ && ys.isConst(0))) {
+					cover = true
+				}
+			}
 			if cf, ok := gs[0].asCmp(); ok && cf.op == token.EQL {
-				xs, ys := symOf(cf.x, provEnv{}), symOf(cf.y, provEnv{})
+				xs, ys := symOf(cf.x, env), symOf(cf.y, env)
 				isLenCall := func(e *sx) bool { return e != nil && (e.inl == "Len" || (e.op == "call" && e.s == "Len")) }
 				isBufLen := func(e *sx) bool { return e != nil && e.op == "len" && e.args[0].fieldSuffix("a") }
 				// Len() == len(d.a), or len(d.a) - Len() == 0 (a "spare capacity" helper)
@@ -828,7 +913,7 @@ func dequeExpandHost(c *Ctx, r *R, me *ssa.Function, key string) {
 				}
 			}
 		}
-	})
+	}
 	r.ok(good && n >= 1 && cover, key+"|resize-at-least-one", me.Pos(), "the expansion step must leave len(d.a) > 0: "+why)
 }
 
